@@ -122,7 +122,7 @@ def materialise(form, comps_by_ds, rows_by_ds, col_orders, tag):
     return out
 
 
-def run_gen_case(case, emit, tier):
+def run_gen_case(case, emit, tier, bud=None):
     from vf import eng
     rng = random.Random(case["seed"])
     fam, script = case["family"], case["script"]
@@ -155,6 +155,9 @@ def run_gen_case(case, emit, tier):
             perms.append(tuple(p))
         exhaustive = False
     for p in perms:
+        if bud is not None and not bud.ok():
+            emit({"v": "inc", "why": "permutations of this case cut by wall-clock budget"})
+            break
         pr = dict(rows_by)
         pr["DS_1"] = [rows_by["DS_1"][i] for i in p]
         if "DS_2" in pr:
@@ -314,7 +317,7 @@ def run_shard(spec, emit):
             rows = gen_ts_inputs(rng, n) if ts else gen_inputs(rng, n)
             case = {"family": fam, "script": script, "ts": ts, "rows": {k: [list(r) for r in v] for k, v in rows.items()},
                     "form": rng.choice(["csv", "df", "parquet"]), "seed": rng.randrange(1 << 30)}
-            run_gen_case(case, emit, tier)
+            run_gen_case(case, emit, tier, bud)
     for _ in range(2 if tier == "quick" else 10):
         run_sdmxcsv_case(rng, emit, tier)
     for c in rider.corpus_slice(spec, quick_fraction=8, tag="C33"):
